@@ -57,6 +57,8 @@ def run(ctx):
     ctx.rule("E9", "Automerge::get_marks_for: the index parameter is compared with an accumulation of Op::width results, never handed to an element-counting adaptor (nth / skip / advance_by)")
     ctx.rule("W4", "C02 W4 re-run")
     ctx.rule("W6", "OpSet::add_succ_with_undo: the exposing store goes through OpSet::expose, which sets the top flag and the text-index width together")
+    ctx.rule("E6b", "a TransactionInner function that looks an element up by index and logs a DeleteSeq addresses the patch by the element's start as the lookup reports it (OpsFound.index is in the provenance of the patch index), not by the caller's raw index alone (which may fall inside a wide element)")
+    ctx.rule("E10", "no load path that carries LoadOptions builds its document with Automerge::new() (platform-default encoding): an empty input still yields a document in options.text_encoding")
     ctx.rule("E5", "the text-diff hooks never delete a single element (TransactionInner::delete); every delete count handed to splice_text is the constant 0 or width-derived")
     f = ctx.facts()
     a = f.adts.get(TE)
@@ -140,6 +142,7 @@ def run(ctx):
         ctx.ob("E3", "TextEncoding::width|%s uses %s" % (v, want), want in arm_calls and len(arm_calls) == 1, wb.rec["sp"], "arm calls %s" % sorted(arm_calls))
     check_units(ctx, f)
     check_index_readers(ctx, f)
+    check_patch_index_and_load(ctx, f)
 
 
 def width_fns(f):
@@ -431,3 +434,38 @@ def check_index_readers(ctx, f):
            "index compared with accumulated Op::width" if ok else
            "the index of get_marks is consumed as an element count (%s): with multi-unit characters it addresses a different character than get(), mark() and marks()" % (sorted({(norm_fn(t.get("fn")) or "").split("::")[-1] for _, t in counted}) or "no width comparison"))
     C02.check_expose_once(ctx, f)
+
+
+def check_patch_index_and_load(ctx, f):
+    TIp = "automerge::transaction::inner::TransactionInner::"
+    n = 0
+    for p, r in sorted(f.fns.items()):
+        if r["ckey"] != ("automerge", "lib") or not norm_fn(p).startswith(TIp) or "{closure" in p:
+            continue
+        b = cfg.body(r)
+        if not any((callee(t) or "").endswith("OpSet::seek_ops_by_index") for _, t in b.calls()):
+            continue
+        dels = [(bi, t) for bi, t in b.calls() if (callee(t) or "").endswith("PatchLog::delete_seq")]
+        for k, (bi, t) in util.ordinal_keys(dels, lambda it, nm=norm_fn(p).split("::")[-1]: "%s|DeleteSeq index" % nm):
+            n += 1
+            ctx.analysed_fns.add(p)
+            pv = b.provenance(t["args"][2], through_calls=False)
+            snapped = any(".index" in b.origin(l, pr)[1] or ".index" in pr for l, pr in pv.places) or pv.has_field(".index")
+            ctx.ob("E6b", k, snapped, t["sp"], "the element's start from the lookup" if snapped else
+                   "the DeleteSeq patch is addressed by the caller's index alone: when that index falls inside a wide element (a block marker in UTF-8) the patch does not fit the text a view holds")
+    ctx.floor("DeleteSeq patches after an element lookup in TransactionInner", n, 2)
+    # ---------------- E10
+    m = 0
+    for p, r in sorted(f.fns.items()):
+        if r["ckey"] != ("automerge", "lib") or not norm_fn(p).startswith("automerge::automerge::Automerge::") or "{closure" in p:
+            continue
+        b = cfg.body(r)
+        if not any("LoadOptions" in b.local_ty(i) for i in range(1, b.argc + 1)):
+            continue
+        m += 1
+        ctx.analysed_fns.add(p)
+        plain = [(bi, t) for bi, t in b.calls() if callee(t) == "automerge::automerge::Automerge::new"]
+        ctx.ob("E10", "%s|document built in the requested encoding" % norm_fn(p).split("::")[-1], not plain, (plain[0][1]["sp"] if plain else r["sp"]),
+               "no Automerge::new() on a path that knows the requested encoding" if not plain else
+               "a load that was given a text encoding returns Automerge::new() (platform default) on some path: load_incremental(&[]) on an empty UTF-16 document resets its encoding and every later index is in the wrong unit")
+    ctx.floor("load functions carrying LoadOptions", m, 1)
